@@ -27,7 +27,7 @@ META = {
         "warnings: at least one per unsupported non-blank line and at most one more per blank line (the documentation is silent on blank lines)",
         "a custom edge type's own from_g2o is harness code; what is checked is its dispatch (one object per line, in order, unaffected by other lines)",
     ],
-    "required_classes": ["two_custom_types", "perm", "junk1", "junk2", "fmt", "sep", "loader", "crlf", "near_miss_tag", "custom_tag", "param_resolved"],
+    "required_classes": ["huge_ids", "two_custom_types", "perm", "junk1", "junk2", "fmt", "sep", "loader", "crlf", "near_miss_tag", "custom_tag", "param_resolved"],
     "bounds": {"quick": "all 5040 + 2520 line orders; junk <= 2 insertions into 2 base files; 10 formats x every field; 3 separators x 3 endings x 6 loaders", "thorough": "same + junk pairs on every rotation of the base files + 3 insertions of the near-miss tags"},
 }
 
@@ -111,6 +111,7 @@ JUNK = [
     ("near_miss", "EDGE_SE3:QUATX 10 -4 1 2 3 0 0 0 1"),
     ("near_miss", "FIX 0"),
 ]
+BIG_IDS = ["9007199254740993", "-9007199254740993", "9223372036854775807", "4611686018427387909", "+17", "0042"]
 FORMATS = ["1", "1.0", "+1.0", "1e0", "1E+0", ".5", "5.", "-0.0", "0.12345678901234567", "1e-300"]
 
 
@@ -143,6 +144,8 @@ def chunks(tier, seed):
         out.append(("sep", b, 0))
     out.append(("empty", "b1", 0))
     out.append(("custom2", "b1", 0))
+    out.append(("bigid", "b1", 0))
+    out.append(("bigid", "b2", 0))
     return out
 
 
@@ -192,6 +195,12 @@ def run_chunk(chunk, tier, seed):
                     for eol, fin in (("\n", True), ("\r\n", True), ("\n", False)):
                         for loader in range(6):
                             _do(acc, {"t": "sep", "base": b, "sep": sep, "trail": trail, "eol": eol, "final": fin, "loader": loader}, ctx)
+        elif typ == "bigid":
+            # ids are integers, not doubles: values beyond 2^53 must survive (each id of the file replaced consistently)
+            ids = sorted({ln[k] for ln in base for k in range(1, 4) if ln[0].startswith(("VERTEX", "EDGE")) and k < len(ln) and (ln[0].startswith("VERTEX") and k == 1 or ln[0].startswith("EDGE") and k <= 2)})
+            for old_id in ids:
+                for new_id in BIG_IDS:
+                    _do(acc, {"t": "bigid", "base": b, "old": old_id, "new": new_id}, ctx)
         elif typ == "custom2":
             # several registered custom types: every line order x both registration orders x registering only one of them
             for order in itertools.permutations(range(len(CUSTOM_LINES))):
@@ -263,6 +272,16 @@ def text_of(case):
             classes.append("crlf")
     elif t == "empty":
         lines = [JUNK[j][1] for j in case["ins"]]
+    elif t == "bigid":
+        for ln in lines:
+            if ln[0].startswith("VERTEX") or ln[0] == "CUSTOM_PRIOR":
+                if ln[1] == case["old"]:
+                    ln[1] = case["new"]
+            elif ln[0].startswith("EDGE"):
+                for k in (1, 2):
+                    if ln[k] == case["old"]:
+                        ln[k] = case["new"]
+        classes.append("huge_ids")
     elif t == "custom2":
         lines = [list(CUSTOM_LINES[k]) for k in case["order"]]
         classes.append("two_custom_types")
